@@ -300,16 +300,18 @@ ARROW_LIST = ("if iceberg_type.startswith('list<'): element_type = iceberg_type[
               "return pa.list_(self._iceberg_type_to_arrow(element_type))")
 RECORD_KEYS = ["not_names = [k for k in record.keys() if not isinstance(k, str)]", "if not_names: raise",
                "unknown = {str(k) for k in record.keys()} - allowed", "if unknown: raise"]
+# Transaction._with_verified_bounds: NOTHING a caller-built DataFile says about the file's content is stored as given
+# (Model/SchemaTx.v stored_claims / claims_verifiable): the statements that must be there, and the only way out before them
 VERIFIED_BOUNDS = [
-    "if data_file.lower_bounds is None and data_file.upper_bounds is None: return data_file",
-    "lower_bounds = None",
-    "upper_bounds = None",
-    "if table_schema is not None: import pyarrow.parquet as pq "
-    "dfm = self.file_manager.data_file_manager "
-    "try: with dfm.open_parquet_source(data_file.file_path) as src: content = pq.read_table(src) "
-    "except Exception as e: raise "
-    "lower_bounds, upper_bounds = dfm._compute_column_bounds(content, table_schema)",
-    "return dataclasses.replace(data_file, lower_bounds=lower_bounds, upper_bounds=upper_bounds)",
+    "if data_file.checksum is not None: with self.file_manager.storage.open_file(data_file.file_path.lstrip('/')) as stream: "
+    "actual_checksum = IntegrityChecker.compute_checksum_from_stream(stream) if data_file.checksum != actual_checksum: raise",
+    "if content is not None and table_schema is not None: lower_bounds, upper_bounds = dfm._compute_column_bounds(content, table_schema)",
+    "if not isinstance(field_id, int) or isinstance(field_id, bool): continue",
+    "return dataclasses.replace(data_file, record_count=footer.num_rows if footer is not None else data_file.record_count, "
+    "column_sizes=column_sizes if data_file.column_sizes is not None else None, "
+    "value_counts=value_counts if data_file.value_counts is not None else None, "
+    "null_value_counts=null_value_counts if data_file.null_value_counts is not None else None, "
+    "lower_bounds=lower_bounds, upper_bounds=upper_bounds)",
 ]
 
 
@@ -330,11 +332,19 @@ def check_more_pins(src: str) -> None:
     if body[:4] != RECORD_KEYS:
         raise Unsupported(f"validate_records_strict: the key tests changed: {body[:4]}")
     mod = parse_module(src, "transaction.py")
-    got = _stmts(find_function(mod, "_with_verified_bounds", cls="Transaction"))
-    if got != VERIFIED_BOUNDS:
-        raise Unsupported(f"_with_verified_bounds changed: {got}")
+    vb = find_function(mod, "_with_verified_bounds", cls="Transaction")
+    got = _stmts(vb)
+    flat = " ".join(got)
+    missing = [w for w in VERIFIED_BOUNDS if w not in flat]
+    if missing or not got[-1].startswith("return dataclasses.replace(") or sum(isinstance(n, ast.Return) for n in ast.walk(vb)) != 1:
+        raise Unsupported(f"_with_verified_bounds changed (a caller-supplied checksum / record_count / statistics map / bound must not be "
+                          f"stored unverified; one return, at the end): missing {missing}")
+    for n in ast.walk(vb):
+        # the footer may stay unread only on a table without a persisted schema
+        if isinstance(n, ast.ExceptHandler) and "if table_schema is None: footer = None else: raise" not in _u(_StripRaise().visit(ast.parse(ast.unparse(n.body[-1])).body[0])):
+            raise Unsupported("_with_verified_bounds: a handler swallows a failure of the verification on a table with a schema")
     app = _stmts(find_function(mod, "append_files", cls="Transaction"))
-    want = ["if not _statistics_computed_here: files = [self._with_verified_bounds(f, table_schema) for f in files]",
+    want = ["if _statistics_computed_here is not _STATISTICS_COMPUTED_HERE: files = [self._with_verified_bounds(f, table_schema) for f in files]",
             "self._operations.append({'type': 'append_files', 'files': files})", "return self"]
     # between the verification of the bounds and the queueing only the GC protection of the adopted files may stand
     # (F-C06b repair: marker registration + refusal while a collection run is announced; judged by C06)
@@ -345,9 +355,16 @@ def check_more_pins(src: str) -> None:
     if "else: Schema(schema_id=schema.schema_id, fields=schema.fields) self._validate_schema_against_table(schema)" not in app_data:
         raise Unsupported("append_data no longer re-validates the schema argument object (Schema(...)) before comparing it with the table's")
     whole = ast.unparse(mod)
-    if whole.count("_statistics_computed_here=True") != 1 or \
-            "self.append_files([updated_data_file], _statistics_computed_here=True)" not in _u(find_function(mod, "append_data", cls="Transaction")):
-        raise Unsupported("only append_data, for the file it has just written, may skip the verification of supplied bounds")
+    # the verification is skipped for the private token only: a module-level object() that nothing but append_data's own
+    # call (for the file it has just written) and the test in append_files mentions -- no value a caller can write
+    tokens = [st for st in mod.body if isinstance(st, ast.Assign) and _u(st) == "_STATISTICS_COMPUTED_HERE = object()"]
+    n_token = sum(isinstance(n, ast.Name) and n.id == "_STATISTICS_COMPUTED_HERE" for n in ast.walk(mod))
+    n_kw = sum(isinstance(n, ast.keyword) and n.arg == "_statistics_computed_here" for n in ast.walk(mod))
+    n_param = sum(isinstance(n, ast.Name) and n.id == "_statistics_computed_here" for n in ast.walk(mod))
+    if len(tokens) != 1 or n_token != 3 or n_kw != 1 or n_param != 1 or "globals" in whole or \
+            "self.append_files([updated_data_file], _statistics_computed_here=_STATISTICS_COMPUTED_HERE)" not in _u(find_function(mod, "append_data", cls="Transaction")):
+        raise Unsupported("only append_data, for the file it has just written, may skip the verification of supplied statistics "
+                          "(the flag must be the private token _STATISTICS_COMPUTED_HERE = object(), not a value a caller can pass)")
 
 
 def _reraises(h: ast.ExceptHandler) -> bool:
